@@ -44,6 +44,8 @@ def build_case(scen, reactor, log):
         if side["unit"] == unit:
             if side["what"] == "leave":
                 reactor.callLater(FAR, lambda: None)
+            elif side["what"] == "chain0":
+                reactor.callLater(0, lambda: reactor.callLater(FAR, lambda: None))
             elif side["what"] == "logerr":
                 tlog.err(failure.Failure(RuntimeError("logged in %s" % unit)))
             elif side["what"] == "drop":
